@@ -5,8 +5,10 @@ real objects under test (for the LLCP checks: two LogicalLinkControllers with
 their service access points and sockets), the reference model and the
 harness bookkeeping.  A transition calls real methods with one event.
 
-  * The frontier holds **snapshots**: `copy.deepcopy(world)`.  That works
-    because `shims.import_nfc()` registers copy dispatch entries for the
+  * The frontier holds **snapshots**: deep copies of the world
+    (`snapshot()`: the semantics of `copy.deepcopy`, with a direct walk for
+    plain containers and `__dict__` objects).  That works because
+    `shims.import_nfc()` registers copy dispatch entries for the
     State/Mode/LinkState classes and every lock in the graph is a pure
     Python virtual lock (mc.sched).
   * `canon(objs)` walks every `__dict__` of the graph and produces a
@@ -34,6 +36,20 @@ A search problem is described by a *spec* object:
     spec.check_state(world)     -> list of violations for a *new distinct*
                                    state (optional; must not mutate world)
     spec.skip                   -> extra field names canon() skips (optional)
+
+Entry points:
+
+    search(spec, depth, ...)    single process, frontier of snapshots
+    psearch(spec, depth, ...)   the same search, one level at a time over the
+                                16 mc.par workers: the parent keeps dumps and
+                                histories, a worker rebuilds its frontier
+                                states by replay and expands them from
+                                snapshots
+    replay(spec, history), canon(objs), digest(dump), state_digest(spec, w),
+    snapshot(world)
+
+Both return a `Result` (states, transitions, depth_completed, exhausted,
+per_depth, sound_checks, copy_checks, digests).
 
 `VERIF_SEED` only permutes the order in which actions and frontier entries are
 walked: the set of states within a completed depth does not depend on it.
@@ -399,27 +415,6 @@ def _explain(spec, a, b, hist):
     d = diff(ca, cb)
     return "history %r: snapshot successor differs from replay at %r: %r" % (
         hist, path, d)
-
-
-def roots(spec, levels=1, prefix=(), on_violation=None, seed=0):
-    """Histories (extending `prefix`) that lead to the distinct states at
-    exactly `levels` transitions which were not seen at a smaller depth -
-    used to split one search into independent parts for mc.par.pmap.
-    Returns (root_histories, shallow) where `shallow` is the Result of the
-    search down to `levels` (its states/transitions/violations belong to the
-    total and must be accounted for once by the caller)."""
-    found = []
-    seen_new = []
-
-    def on_tr(h, is_new):
-        seen_new.append((h, is_new))
-    res = search(spec, levels, prefix=prefix, on_transition=on_tr,
-                 on_violation=on_violation, seed=seed)
-    seen_new.sort(key=repr)
-    for h, is_new in seen_new:
-        if is_new and len(h) == len(tuple(prefix)) + levels:
-            found.append(h)
-    return found, res
 
 
 # ----------------------------------------------------------------------------
